@@ -18,7 +18,7 @@ TIERS = {
 def _keep(c):
     """selections directly above the operators with their own projection rule are covered systematically"""
     q = c["q"]
-    return q["op"] in ("proj", "col") and q["c"][0]["op"] in ("merge", "addprefix", "addsuffix", "rename", "combinefirst", "concat", "groupby", "setindex", "sort", "dropdup", "nlargest", "assign")
+    return q["op"] in ("proj", "col", "drop") and q["c"][0]["op"] in ("merge", "addprefix", "addsuffix", "rename", "combinefirst", "concat", "groupby", "setindex", "sort", "dropdup", "nlargest", "nsmallest", "drop", "assign")
 
 
 def run(tier="quick", seed=0, replay_path=None):
